@@ -42,7 +42,7 @@ import (
 // per-request filtering settings hook.  One line is one configuration plus K
 // concurrent requests:
 //
-//	C03.sblock conf-fields… K (proto ipkind addr zone sni hostBlocked qname qtype path)*K
+//	C03.sblock conf-fields… K (proto ipkind addr zone sni hostBlocked qname qtype path qclass)*K
 //	   =>  (reply upstream logged counted)*K filtered
 //
 // reply ∈ none | refused | servfail | processed.
@@ -233,10 +233,10 @@ const (
 )
 
 // c03sQuery sends one real request and classifies what came back.
-func c03sQuery(s *Server, proto string, ip netip.Addr, sni, path, qname string, qtype uint16) (reply string) {
+func c03sQuery(s *Server, proto string, ip netip.Addr, sni, path, qname string, qtype, qclass uint16) (reply string) {
 	switch proto {
 	case "https", "quic", "dnscrypt":
-		return c03sClassify(c03sQueryOther(s, proto, ip, sni, path, qname, qtype))
+		return c03sClassify(c03sQueryOther(s, proto, ip, sni, path, qname, qtype, qclass))
 	}
 
 	var pp proxy.Proto
@@ -265,7 +265,7 @@ func c03sQuery(s *Server, proto string, ip netip.Addr, sni, path, qname string, 
 	}
 	req := &dns.Msg{
 		MsgHdr:   dns.MsgHdr{Id: dns.Id(), RecursionDesired: true},
-		Question: []dns.Question{{Name: qname, Qtype: qtype, Qclass: dns.ClassINET}},
+		Question: []dns.Question{{Name: qname, Qtype: qtype, Qclass: qclass}},
 	}
 
 	resp, _, err := c.Exchange(req, netip.AddrPortFrom(dst, port).String())
@@ -316,11 +316,11 @@ func c03sQueryOther(
 	proto string,
 	ip netip.Addr,
 	sni, path, qname string,
-	qtype uint16,
+	qtype, qclass uint16,
 ) (resp *dns.Msg, silent bool, err error) {
 	req := &dns.Msg{
 		MsgHdr:   dns.MsgHdr{Id: dns.Id(), RecursionDesired: true},
-		Question: []dns.Question{{Name: qname, Qtype: qtype, Qclass: dns.ClassINET}},
+		Question: []dns.Question{{Name: qname, Qtype: qtype, Qclass: qclass}},
 	}
 	ctx, cancel := context.WithTimeout(context.Background(), c03sTCPTimeout)
 	defer cancel()
@@ -470,7 +470,7 @@ func errorsAs(err error, target *net.Error) bool {
 type c03sReq struct {
 	proto, sni, path, qname string
 	ip                      netip.Addr
-	qtype                   uint16
+	qtype, qclass           uint16
 }
 
 func c03sRun(f []string) []string {
@@ -485,11 +485,12 @@ func c03sRun(f []string) []string {
 	i++
 	reqs := make([]c03sReq, k)
 	for j := range reqs {
-		g := f[i : i+9]
-		i += 9
+		g := f[i : i+10]
+		i += 10
 		reqs[j] = c03sReq{
 			proto: g[0], ip: c03ParseIP(g[1], g[2], g[3]), sni: vutil.Unhex(g[4]),
 			qname: vutil.Unhex(g[6]), qtype: uint16(vutil.Atoi(g[7])), path: vutil.Unhex(g[8]),
+			qclass: uint16(vutil.Atoi(g[9])),
 		}
 	}
 
@@ -511,7 +512,7 @@ func c03sRun(f []string) []string {
 		go func() {
 			defer wg.Done()
 			r := reqs[j]
-			replies[j] = c03sQuery(s, r.proto, r.ip, r.sni, r.path, r.qname, r.qtype)
+			replies[j] = c03sQuery(s, r.proto, r.ip, r.sni, r.path, r.qname, r.qtype, r.qclass)
 		}()
 	}
 	wg.Wait()
@@ -565,8 +566,8 @@ func c03sGen(r *rand.Rand, emit vutil.Emit) {
 	n := vutil.N(30)
 	local := c03sLocalAddrs()
 	ids := []string{"cli", "other", "a-b"}
-	hostRules := []string{"||blocked.example^", "*.wild.example", "||*^$dnstype=AAAA", "UPPER.example"}
-	bases := []string{"blocked.example.", "wild.example.", "ok.example.", "fine.org.", "Blocked.Example."}
+	hostRules := []string{"||blocked.example^", "*.wild.example", "||*^$dnstype=AAAA", "UPPER.example", "||version.bind^"}
+	bases := []string{"blocked.example.", "wild.example.", "ok.example.", "fine.org.", "Blocked.Example.", "Version.Bind."}
 	for b := 0; b < n; b++ {
 		// entries: the local addresses, nets around them, ids
 		var pool []string
@@ -654,10 +655,11 @@ func c03sGen(r *rand.Rand, emit vutil.Emit) {
 				}
 			}
 			qname := fmt.Sprintf("q%d-%d.%s", b, j, vutil.Pick(r, bases))
-			qtype := []uint16{dns.TypeA, dns.TypeA, dns.TypeAAAA}[r.IntN(3)]
+			qtype := []uint16{dns.TypeA, dns.TypeA, dns.TypeAAAA, dns.TypeTXT}[r.IntN(4)]
+			qclass := []uint16{dns.ClassINET, dns.ClassINET, dns.ClassCHAOS, dns.ClassHESIOD, dns.ClassANY}[r.IntN(5)]
 			f = append(f, proto, map[bool]string{true: "4", false: "6"}[ip.Is4()], hex.EncodeToString(ip.AsSlice()),
 				vutil.Hex(ip.Zone()), vutil.Hex(sni), vutil.B(oracle.blocked(qname, qtype)), vutil.Hex(qname),
-				vutil.Itoa(int(qtype)), vutil.Hex(path))
+				vutil.Itoa(int(qtype)), vutil.Hex(path), vutil.Itoa(int(qclass)))
 		}
 		emit(f...)
 	}
